@@ -18,3 +18,9 @@ func runtime_simRun(f func())
 
 //go:linkname runtime_simWait runtime.simWait
 func runtime_simWait()
+
+// the real monotonic clock (time.Now is the bubble's fake clock); used only
+// to give up on runs that take too long, never for a decision of a run
+//
+//go:linkname runtime_nanotime runtime.nanotime
+func runtime_nanotime() int64
